@@ -19,7 +19,8 @@ TECHNIQUE = ("exhaustive enumeration of registration histories (sequences of spe
 LEVEL_TEXT = ("All registration sequences of <= 3 (quick) / <= 4 (thorough) implementations of a registry point - bound to context A, B, "
               "at-least-one [A,B] or transitively through a helper datasource; function datasources and simple_file objects over real "
               "present/missing files; outcomes value / falsy value 0 / skip / content error / crash - in four class layouts (siblings, deeper subclass, two "
-              "registry points, a LAYERED spec set that re-declares the point with implementations registered against either level) are registered with the real metaclass and evaluated under each active context. The value of the point, the "
+              "registry points, a LAYERED spec set that re-declares the point with implementations registered against either level, and ONE CLASS BODY that "
+              "defines two specs of which the later one is bound to the other registry point - both alphabetical name orders) are registered with the real metaclass and evaluated under each active context. The value of the point, the "
               "set of implementation bodies executed, the value a consuming parser receives and the propagated flags are compared with the "
               "reference rule 'last registered implementation whose context set contains the active context, or nothing' - after the whole "
               "history and, in one process on the same objects, after every registration prefix.")
@@ -60,6 +61,11 @@ def units(tier, seed):
     for n in range(1, 4):
         for layer_at in range(0, min(n, 2)):
             us.append({"layout": "layered", "n": n, "layer_at": layer_at})
+    # one class BODY that defines two specs: the implementation of `point` is bound to ANOTHER REGISTRY POINT whose
+    # implementation (which brings the context) stands earlier in the same body; both alphabetical name orders
+    for n in range(0, 3):
+        for helper_name in ("aux", "zaux"):
+            us.append({"layout": "same-body", "n": n, "helper_name": helper_name})
     return us
 
 
@@ -347,10 +353,153 @@ def run_layered(unit, res):
     return res
 
 
+def check_body_case(case):
+    """case = {"layout": "same-body", "impls": [[binding, outcome] x n earlier implementations, one class each],
+               "helper_name": "aux"|"zaux", "helper_ctx": "A"|"B", "helper_where": "same-body"|"earlier-class",
+               "last_outcome": "value"|"skip", "active": "A"|"B"}
+    The LAST implementation of `point` is `datasource(Base.<helper_name>)`: it is declared for the contexts of the
+    implementations registered on that other registry point - here exactly one, defined BEFORE it (in the same class
+    body, in definition order, or in an earlier class)."""
+    from insights.core import dr, plugins
+    from insights.core.context import HostContext, HostArchiveContext
+    from insights.core.exceptions import SkipComponent
+    from insights.core.spec_factory import RegistryPoint, SpecSet, SpecSetMeta
+    from insights.core.plugins import datasource
+    from harness import graphs as G
+    from harness.tmp import scratch
+
+    CTX = {"A": HostContext, "B": HostArchiveContext}
+    _counter[0] += 1
+    tag = "c05b_%d" % _counter[0]
+    active, hname, hctx = case["active"], case["helper_name"], case["helper_ctx"]
+    impls = [tuple(x) for x in case["impls"]] + [("via-point:" + hctx, case["last_outcome"])]
+    log, got, created = [], [], []
+    with scratch("c05") as root:
+        try:
+            point, hpoint = RegistryPoint(), RegistryPoint()
+            created += [point, hpoint]
+            Base = SpecSetMeta(tag + "_Base", (SpecSet,), {"point": point, hname: hpoint, "__module__": G.MODNAME})
+
+            def consumer(v):
+                got.append(v)
+                return ("parsed", v)
+            consumer.__name__ = tag + "_consumer"
+            consumer.__module__ = G.MODNAME
+            plugins.parser(point)(consumer)
+            created.append(consumer)
+
+            def make_body(k, outcome):
+                def body(broker):
+                    log.append(k)
+                    if outcome == "value":
+                        return "value-%d" % k
+                    raise SkipComponent("skip %d" % k)
+                body.__name__ = "%s_body%d" % (tag, k)
+                body.__module__ = G.MODNAME
+                return body
+            for k, (b, o) in enumerate(impls[:-1]):
+                deco = datasource([HostContext, HostArchiveContext]) if b == "AB" else datasource(CTX[b])
+                ds = deco(make_body(k, o))
+                created.append(ds)
+                SpecSetMeta("%s_Impl%d" % (tag, k), (Base,), {"point": ds, "__module__": G.MODNAME})
+
+            def hbody(broker):
+                log.append("helper")
+                return "helper-value"
+            hbody.__name__ = tag + "_hbody"
+            hbody.__module__ = G.MODNAME
+            hds = datasource(CTX[hctx])(hbody)
+            created.append(hds)
+            last = len(impls) - 1
+            if case["helper_where"] == "earlier-class":
+                SpecSetMeta(tag + "_HelperImpl", (Base,), {hname: hds, "__module__": G.MODNAME})
+            lds = datasource(getattr(Base, hname))(make_body(last, case["last_outcome"]))
+            created.append(lds)
+            body = {"__module__": G.MODNAME}
+            if case["helper_where"] == "same-body":
+                body[hname] = hds                      # definition order: the helper's implementation stands first
+            body["point"] = lds
+            SpecSetMeta("%s_Impl%d" % (tag, last), (Base,), body)
+
+            def cset(b):
+                return {"A": {"A"}, "B": {"B"}, "AB": {"A", "B"}}.get(b) or {b[-1]}
+            cand = [k for k, (b, o) in enumerate(impls) if active in cset(b)]
+            handler = cand[-1] if cand else None
+            exp_present = handler is not None and impls[handler][1] == "value"
+            broker = dr.Broker()
+            broker[CTX[active]] = CTX[active](root=root)
+            graph = dr.get_dependency_graph(consumer)
+            try:
+                dr.run(graph, broker)
+            except Exception as ex:
+                return [("run:raises", "dr.run returns", repr(ex), {})]
+            vio = []
+            feats = {"layout": "same-body", "helper_name": hname, "helper_where": case["helper_where"]}
+            if exp_present:
+                ev = "value-%d" % handler
+                if point not in broker or broker[point] != ev:
+                    vio.append(("resolution:handler-value-supplied", {"handler": handler, "value": ev},
+                                {"value": broker.get(point), "present": point in broker}, feats))
+                if got != [ev]:
+                    vio.append(("resolution:parser-receives-handler-value", [ev], list(got), feats))
+            else:
+                if point in broker:
+                    vio.append(("resolution:absent-when-handler-yields-nothing", {"handler": handler, "absent": True},
+                                {"value": broker[point]}, feats))
+                if got:
+                    vio.append(("resolution:parser-not-fed", [], list(got), feats))
+            for k, (b, o) in enumerate(impls):
+                n = log.count(k)
+                if k == handler:
+                    if n != 1:
+                        vio.append(("execution:handler-runs-once", {"impl": k, "runs": 1}, {"impl": k, "runs": n}, feats))
+                elif n != 0:
+                    vio.append(("execution:overridden-implementation-not-run" if active in cset(b) else
+                                "execution:other-context-implementation-not-run", {"impl": k, "runs": 0}, {"impl": k, "runs": n}, feats))
+            exp_h = 1 if active == hctx else 0
+            if log.count("helper") != exp_h:
+                vio.append(("execution:helper-point-implementation-runs-under-its-context", {"runs": exp_h},
+                            {"runs": log.count("helper")}, feats))
+            case["_outcome"] = "handler=%s:%s:bodies-run=%d" % (handler, "value" if exp_present else "absent", len(log))
+            return vio
+        finally:
+            G.cleanup_components(created)
+            for ctx in (HostContext, HostArchiveContext):
+                s = dr.DEPENDENTS.get(ctx)
+                if s is not None:
+                    s.difference_update(created)
+
+
+def run_same_body(unit, res):
+    n = unit["n"]
+    for impls in itertools.product(LAYERED_ALPHA, repeat=n):
+        for hctx, where, lo, active in itertools.product(("A", "B"), ("same-body", "earlier-class"), ("value", "skip"), ("A", "B")):
+            case = {"layout": "same-body", "impls": [list(x) for x in impls], "helper_name": unit["helper_name"], "helper_ctx": hctx,
+                    "helper_where": where, "last_outcome": lo, "active": active}
+            try:
+                vio = check_body_case(case)
+            except Exception:
+                import traceback
+                vio = [("harness:raises", "no exception", traceback.format_exc()[-900:], {})]
+            declared = sum(1 for (b, o) in impls if active in ctx_set(b)) + (1 if hctx == active else 0)
+            oc = case.pop("_outcome", "?")
+            res.case(nontrivial=declared >= 2 and hctx == active,
+                     outcome="same-body|" + (",".join(sorted(set(v[0] for v in vio))) or "ok") + "|" + oc,
+                     sample=case if res.evals % 300 == 5 else None)
+            res.transitions += n + 2
+            res.traces += 1
+            for v in vio:
+                res.violation(v[0], case, v[1], v[2], v[3])
+    res.maxi("max_history_length", n + 1)
+    return res
+
+
 def run_unit(unit, tier):
     res = Result()
     if unit["layout"] == "layered":
         return run_layered(unit, res)
+    if unit["layout"] == "same-body":
+        return run_same_body(unit, res)
     alpha = impl_alphabet()
     n = unit["n"]
     fixed = [alpha[unit["first"]]]
@@ -389,4 +538,6 @@ def run_unit(unit, tier):
 
 
 def replay(case):
+    if case.get("layout") == "same-body":
+        return [{"clause": v[0], "case": case, "expected": v[1], "observed": v[2], "features": v[3]} for v in check_body_case(case)]
     return [{"clause": v[0], "case": case, "expected": v[1], "observed": v[2], "features": v[3]} for v in check_case(case)]
